@@ -103,7 +103,7 @@ def run(ctx):
                 core.leanchecker(ctx, ["ButlerModel.Props.C01"])
     with repo.Scratch("verif-c01-") as tmp:
         req, impl = [], []
-        for cfgname in ("file", "inmem", "chained"):
+        for cfgname in ("file", "inmem", "chained", "chained2"):
             histories(ctx, tmp, cfgname, req, impl)
         if built:
             got = core.driver(req)
@@ -127,6 +127,16 @@ def make_config(cfgname):
         c["datastore", "cls"] = "lsst.daf.butler.datastores.inMemoryDatastore.InMemoryDatastore"
         return c
     c["datastore", "cls"] = "lsst.daf.butler.datastores.chainedDatastore.ChainedDatastore"
+    if cfgname == "chained2":
+        # two file datastores; the second one does not accept dataset type tdict (datastore_constraints), so those
+        # datasets live in the first child only and the children disagree about what they know
+        fd = "lsst.daf.butler.datastores.fileDatastore.FileDatastore"
+        c["datastore", "datastore_constraints"] = [{"constraints": {}}, {"constraints": {"reject": ["tdict"]}}]
+        c["datastore", "datastores"] = [
+            {"datastore": {"cls": fd, "name": "P", "root": "<butlerRoot>/p", "records": {"table": "p_records"}}},
+            {"datastore": {"cls": fd, "name": "S", "root": "<butlerRoot>/s", "records": {"table": "s_records"}}},
+        ]
+        return c
     c["datastore", "datastores"] = [
         {"datastore": {"cls": "lsst.daf.butler.datastores.inMemoryDatastore.InMemoryDatastore"}},
         {"datastore": {"cls": "lsst.daf.butler.datastores.fileDatastore.FileDatastore", "root": "<butlerRoot>/fs1", "records": {"table": "fs1_records"}}},
@@ -150,8 +160,9 @@ def histories(ctx, tmp, cfgname, req, impl):
         bb.registry.insertDimensionData("detector", *[{"instrument": "I", "id": i, "full_name": f"d{i}"} for i in range(1, NDET)])
         for f in FILTERS:
             bb.registry.insertDimensionData("physical_filter", {"instrument": "I", "name": f, "band": "r"})
+        bb.registry.insertDimensionData("visit_system", *[{"instrument": "I", "id": i, "name": f"vs{i}"} for i in range(4)])
         t = {}
-        for name, dims, sc in (("tdict", {"instrument", "detector"}, "StructuredDataDict"), ("tint", {"instrument", "detector"}, "int"), ("tspan", {"instrument", "detector"}, "Timespan"),
+        for name, dims, sc in (("tvs", {"instrument", "visit_system"}, "StructuredDataDict"), ("tdict", {"instrument", "detector"}, "StructuredDataDict"), ("tint", {"instrument", "detector"}, "int"), ("tspan", {"instrument", "detector"}, "Timespan"),
                                ("tnp", {"instrument", "detector"}, "NumpyArray"), ("tfilt", {"instrument", "physical_filter"}, "StructuredDataDict")):
             t[name] = DatasetType(name, dims, sc, universe=bb.dimensions)
             bb.registry.registerDatasetType(t[name])
@@ -180,7 +191,7 @@ def histories(ctx, tmp, cfgname, req, impl):
             return rng.choice([Timespan(None, None), Timespan(t0, None), Timespan(None, t0), Timespan(t0, t0 + 1)])
         return np.array([rng.randint(-5, 5) for _ in range(rng.randint(0, 5))], dtype=rng.choice(["int64", "float32", "uint8"]).replace("uint8", "int16"))
 
-    n_hist = (16 if cfgname == "file" else 6) if ctx.quick() else 200
+    n_hist = (16 if cfgname == "file" else (8 if cfgname == "chained2" else 6)) if ctx.quick() else 200
     det = 0
     pathno, contentno = {}, {}
     mirrored = cfgname == "file"
@@ -211,11 +222,29 @@ def histories(ctx, tmp, cfgname, req, impl):
             stored = sorted(live)
             new = None
             if r < 0.42 or not stored:
-                tname = rng.choice(["tdict", "tdict", "tdict", "tint", "tspan", "tnp", "tfilt", "tfilt"])
+                tname = rng.choice(["tdict", "tdict", "tdict", "tint", "tspan", "tnp", "tfilt", "tfilt", "tvs", "tvs"])
                 run = rng.choice(runs)
                 if forced:
                     tname, run = "tfilt", runs[0]
-                if tname == "tfilt":
+                if tname == "tvs":
+                    # a dataset type with a required dimension the default file template has no field for: a file datastore
+                    # either refuses it or keeps every data ID apart
+                    free = [v for v in range(4) if ("vs", v, run) not in used_filters]
+                    if not free:
+                        continue
+                    run = runs[0]
+                    free = [v for v in range(4) if ("vs", v, run) not in used_filters] or free
+                    did = {"instrument": "I", "visit_system": rng.choice(free)}
+                    obj = gen_dict(rng, 2)
+                    try:
+                        ref = b.put(obj, types["tvs"], did, run=run)
+                    except Exception as e:
+                        ops.append(f"put tvs {did['visit_system']} {run[-1]} refused {type(e).__name__}")
+                        ctx.count(f"{cfgname}:put-tvs-refused")
+                        continue
+                    used_filters[("vs", did["visit_system"], run)] = True
+                    new = (ref, copy.deepcopy(obj), f"put tvs {did['visit_system']} {run[-1]}")
+                elif tname == "tfilt":
                     free = [f for f in FILTERS if (f, run) not in used_filters]
                     if not free:
                         continue
@@ -225,13 +254,16 @@ def histories(ctx, tmp, cfgname, req, impl):
                 else:
                     det += 1
                     did = {"instrument": "I", "detector": det}
-                obj = payload(tname)
-                keep = copy.deepcopy(obj)
-                ref = b.put(obj, types[tname], did, run=run)
+                if tname == "tvs":
+                    pass
+                else:
+                  obj = payload(tname)
+                  keep = copy.deepcopy(obj)
+                  ref = b.put(obj, types[tname], did, run=run)
                 # the caller goes on using (and changing) its object.  Only for the file datastore: InMemoryDatastore keeps
                 # and hands out the caller's own object by design (no serialisation), so "the object originally stored"
                 # is that very object — value-snapshot semantics would demand more than C01 states.
-                if cfgname != "file":
+                if cfgname != "file" or tname == "tvs":
                     pass
                 elif isinstance(obj, dict):
                     obj["__mutated_after_put__"] = 1
@@ -239,7 +271,8 @@ def histories(ctx, tmp, cfgname, req, impl):
                     obj.append("__mutated_after_put__")
                 elif isinstance(obj, np.ndarray) and obj.size:
                     obj[0] = 99
-                new = (ref, keep, f"put {tname} {did.get('physical_filter', did.get('detector'))!r} {run[-1]}")
+                if tname != "tvs":
+                    new = (ref, keep, f"put {tname} {did.get('physical_filter', did.get('detector'))!r} {run[-1]}")
             elif r < 0.52 and cfgname != "inmem":
                 # one ingest call with several files, handed over in an order that is not the order of their data IDs
                 import yaml
@@ -280,6 +313,41 @@ def histories(ctx, tmp, cfgname, req, impl):
                 sref = src.put(obj, src_types["tdict"], instrument="I", detector=det)
                 b.transfer_from(src, [sref], transfer="copy", register_dataset_types=False)
                 new = (sref, copy.deepcopy(obj), f"transfer {det}")
+            elif 0.62 <= r < 0.635 and cfgname != "inmem":
+                # a file the source repository ingested in place (it does not own it), transferred here with transfer="auto" (this
+                # repository then points at the same external file), and then removed from the source: the file is nobody's to delete
+                import yaml
+
+                det += 1
+                obj = gen_dict(rng, 2)
+                p = os.path.join(ext, f"direct{det}.yaml")
+                with open(p, "w") as fh:
+                    yaml.dump(obj, fh)
+                sref = DatasetRef(src_types["tdict"], {"instrument": "I", "detector": det}, run="srcrun")
+                src.ingest(FileDataset(path=p, refs=[sref]), transfer="direct")
+                b.transfer_from(src, [sref], transfer="auto", register_dataset_types=False)
+                src.pruneDatasets([sref], purge=True, unstore=True, disassociate=True)
+                new = (sref, copy.deepcopy(obj), f"direct-transfer-then-removed-at-source {det}")
+            elif 0.635 <= r < 0.66 and cfgname != "inmem":
+                # ingesting another file for a dataset that is still stored: must be refused and change nothing
+                import yaml
+
+                cand = [i for i in stored if refs[i].datasetType.name == "tdict"]
+                if not cand:
+                    continue
+                i = rng.choice(cand)
+                p = os.path.join(ext, f"again{step}.yaml")
+                with open(p, "w") as fh:
+                    yaml.dump({"second": "writer"}, fh)
+                try:
+                    b.ingest(FileDataset(path=p, refs=[refs[i]]), transfer="copy")
+                    ops.append(f"re-ingest {i} accepted")
+                    viol(f"[{cfgname}] after {ops[-3:]}: a second ingest for stored dataset {i} was accepted",
+                         f"reingest-accepted:{cfgname}", {"kind": "history", "config": cfgname, "ops": ops, "dataset": i})
+                except Exception as e:
+                    ops.append(f"re-ingest {i} refused {type(e).__name__}")
+                if os.path.exists(p):
+                    os.remove(p)
             elif r < 0.66:
                 cand = [i for i in stored if refs[i].datasetType.name != "tfilt" or True]
                 i = rng.choice(cand)
@@ -377,7 +445,7 @@ def histories(ctx, tmp, cfgname, req, impl):
                     u = b.getURI(ref)
                     p = str(u) if u.fragment else u.ospath  # a zip member is its own "file": path#zip-path=member
                     c = contentno.setdefault(repr(canon(keep)), len(contentno) + 1)
-                    req.append(f"st put {i} {pathno.setdefault(p, len(pathno) + 1)} {c} {0 if u.fragment else os.path.getsize(p)}"), impl.append("ok")
+                    req.append(f"st put {i} {pathno.setdefault(p, len(pathno) + 1)} {c} {0 if u.fragment else (os.path.getsize(p) if os.path.exists(p) else 0)}"), impl.append("ok")
             ctx.evaluations += 1
             ctx.count(f"{cfgname}:{ops[-1].split()[0]}")
             # ---------------------------------------------------------- read everything back
